@@ -857,7 +857,12 @@ func (sc *Scope) evalCall(x *ECall) Val {
 			sc.fail("as(x, type(T))")
 		}
 		s := c.sortOf(tv.TypeLit)
-		return Val{T: c.unbox(fmt.Sprintf("(if_val %s)", v.T), s), S: s, GT: tv.TypeLit}
+		u := c.unbox(fmt.Sprintf("(if_val %s)", v.T), s)
+		if _, isPtr := tv.TypeLit.Underlying().(*types.Pointer); isPtr && !strings.Contains(u, "q!") && !strings.Contains(u, "sp!") && !strings.Contains(u, "dummy!") {
+			// a pointer held in an interface value points to an allocated object (or is nil)
+			c.defFact(fmt.Sprintf("(=> (= (if_tag %s) %d) (or (= %s nil) (select %s (root %s))))", v.T, c.typeTag(tv.TypeLit), u, c.hget(sc.cur, "$alloc"), u))
+		}
+		return Val{T: u, S: s, GT: tv.TypeLit}
 	case "iface":
 		// iface(type(T), v): interface value holding v of dynamic type T
 		need(2)
@@ -1289,6 +1294,11 @@ func (sc *Scope) applyMacro(sf *SpecFunc, x *ECall) Val {
 		nb[p.Name] = a
 	}
 	saved, savedWhere := sc.bound, sc.where
+	savedPkg := sc.pkg
+	if mp := sc.c.P.pkgOfFile(sf.File); mp != nil {
+		sc.pkg = mp
+	}
+	defer func() { sc.pkg = savedPkg }()
 	sc.bound = nb
 	if sc.macroDepth > 20 {
 		sc.fail("macro expansion too deep (recursive macro %s?)", sf.Name)
